@@ -168,7 +168,7 @@ PROPS.update({
             "ESTABLISHED with exactly the cache's records within refresh + expire + 4*retry + 360 s of simulated time; deadlock, busy loop and step-limit "
             "detectors cover 'never loops without letting time advance'.",
             "suites": [_world("C08", runs_quick=900, time_quick=25),
-                       {"name": "world-C08-sweep", "kind": "faultsweep", "scn": "world", "variant": "asan", "opts": {"focus": "C08", "single": 1, "clean": 1, "maxx": 5},
+                       {"name": "world-C08-sweep", "kind": "faultsweep", "scn": "world", "variant": "asan", "opts": {"focus": "C08", "single": 1, "clean": 1, "maxx": 5, "fast_intervals": 1},
                         "runs_quick": 12, "time_quick": 30, "k_per_base_quick": 120, "runs_thorough": 150, "time_thorough": 600}],
             "min_counters": {"sync_audits": 500, "probe_converged_runs": 100, "faultsweep_points": 500},
             "exhaustive_note": "thorough tier: every single-fault point (call site x fault kind, PDU position x deviation kind) of every sampled base conversation, each followed by recovery",
